@@ -24,6 +24,14 @@ Theorem C16_decap_index : forall pre lvs m fuel, Forall fl_ok pre -> pre <> [] -
   decapsulate_index fuel (nest (pre ++ lvs) m) (Z.of_nat (length pre) - 1) = Ok (nest lvs m).
 Proof. exact decapsulate_index_nest. Qed.
 Print Assumptions C16_decap_index.
+
+(** an index at or beyond the nesting depth (index 1 on a message that crossed one relay):
+    the innermost message, not an error and not a crash *)
+Theorem C16_decap_index_beyond : forall lvs m fuel (index : Z), Forall fl_ok lvs -> is_relay m = false ->
+  (Z.of_nat (length lvs) - 1 <= index)%Z -> (0 <= index)%Z ->
+  decapsulate_index fuel (nest lvs m) index = Ok m.
+Proof. exact decapsulate_index_beyond. Qed.
+Print Assumptions C16_decap_index_beyond.
 Theorem C16_innermost_relay : forall lvs lv m, Forall fl_ok lvs -> fl_ok lv -> is_relay m = false ->
   forall fuel, length lvs < fuel -> innermost_relay fuel (nest (lvs ++ [lv]) m) = Ok (fl_wrap lv m).
 Proof. exact innermost_relay_nest. Qed.
